@@ -14,14 +14,43 @@ pub const SMBUS_CMD: u8 = 0x0F;
 /// Largest packet: byte count 255 + dest, cmd, count, PEC.
 pub const MAX_PACKET: usize = 259;
 
-/// CRC-8, polynomial x^8+x^2+x+1 (0x07), init 0, no reflection, no final XOR.
+/// CRC-8, polynomial x^8+x^2+x+1 (0x07), init 0, no reflection, no final XOR:
+/// the bitwise definition for one byte ...
+const fn crc8_step(mut crc: u8) -> u8 {
+    let mut k = 0;
+    while k < 8 {
+        crc = if crc & 0x80 != 0 { (crc << 1) ^ 0x07 } else { crc << 1 };
+        k += 1;
+    }
+    crc
+}
+
+/// ... tabulated from that definition at compile time (no code shared with the
+/// smbus-pec crate the library uses).
+const CRC_TABLE: [u8; 256] = {
+    let mut t = [0u8; 256];
+    let mut i = 0;
+    while i < 256 {
+        t[i] = crc8_step(i as u8);
+        i += 1;
+    }
+    t
+};
+
+#[inline]
 pub fn crc8(bytes: &[u8]) -> u8 {
     let mut crc = 0u8;
     for &b in bytes {
-        crc ^= b;
-        for _ in 0..8 {
-            crc = if crc & 0x80 != 0 { (crc << 1) ^ 0x07 } else { crc << 1 };
-        }
+        crc = CRC_TABLE[(crc ^ b) as usize];
+    }
+    crc
+}
+
+/// The bit-by-bit definition, kept to cross-check the table (unit test).
+pub fn crc8_bitwise(bytes: &[u8]) -> u8 {
+    let mut crc = 0u8;
+    for &b in bytes {
+        crc = crc8_step(crc ^ b);
     }
     crc
 }
@@ -634,5 +663,9 @@ mod tests {
         // CRC-8 (poly 0x07) check value
         assert_eq!(crc8(b"123456789"), 0xF4);
         assert_eq!(crc8(&[]), 0);
+        let v: Vec<u8> = (0..=255u8).chain(0..=255u8).collect();
+        for k in 0..v.len() {
+            assert_eq!(crc8(&v[..k]), crc8_bitwise(&v[..k]));
+        }
     }
 }
